@@ -295,3 +295,27 @@ PROPS["C02"] = {
     "level_text": "Bounded symbolic model checking of both skip lists against a branch-free association-list model: keys, values, query bounds and the random words that determine tower heights are symbolic, so every relative key order and every tower-height assignment within the bound is explored and every observer is decided by the solver.",
     "level_note": "Trusted: go/ssa, gosym (witness-validated; native replay steers the list's private *rand.Rand through reflection), z3.",
 }
+
+# ------------------------------------------------------------------------------------------- C03
+c03 = "vh/c03."
+PROPS["C03"] = {
+    "patterns": ["./c03"],
+    "level": "model_checking",
+    "quick": [
+        J(c03 + "Ops", ops=3),
+        J(c03 + "Threshold", ops=2, window=8, winbase=4090, covers=["dense bucket"]),
+        J(c03 + "Threshold", ops=2, window=6, winbase=61, step=2, base=0, covers=["dense bucket"]),
+    ],
+    "thorough": [
+        J(c03 + "Ops", ops=4),
+        J(c03 + "Threshold", ops=3, window=8, winbase=4090, highs=3, covers=["dense bucket"]),
+        J(c03 + "Threshold", ops=2, window=12, winbase=58, step=2, base=0, highs=2, covers=["dense bucket"]),
+        J(c03 + "Threshold", ops=2, window=8, winbase=65530, step=1, base=61440, covers=["dense bucket"]),
+    ],
+    "bounds": {"quick": "usable from the zero value; 3 arbitrary Add/Remove with fully symbolic uint32 values (every distribution over high-16-bit buckets, every order) then Contains of a fresh symbolic value, Len, and Iter/Range/All (complete, ascending, early stop) against a branch-free set model; threshold: a bucket pre-filled with exactly 4096 lows (0..4095, and the even numbers 0..8190), then 2 symbolic Add/Remove inside a window of 8 (6) lows across the fill boundary / a 64-bit word boundary, covering the sparse->dense conversion at the 4097th element: return values, Len, Contains of a symbolic value near the window, and complete enumeration (count, order, membership) by Iter, count by Range and All",
+               "thorough": "4 operations; threshold with 3 operations, wider windows, three different high halves, a fill at the top of the low range"},
+    "outside": ["more than 4 operations", "enumeration of a dense bucket with arbitrary symbolic content (forks on every bit)", "dense buckets that shrink back below the threshold by many removals"],
+    "assumptions": ["skip-list tower heights are arbitrary (math/rand stub)"],
+    "level_text": "Bounded symbolic model checking of RoaringBitmap (including the skip list and the Bits/Bitmap containers underneath) against a set model: values are symbolic over the whole uint32 range, and the 4096-element conversion threshold is crossed from a concretely pre-filled bucket with symbolic values in a window, including the unsafe reinterpretation of the uint16 array as 1024 uint64 words.",
+    "level_note": "Trusted: go/ssa, gosym (incl. its little-endian model of the [1024]uint64 reinterpreting load), z3.",
+}
